@@ -422,14 +422,14 @@ class SoapClient(SoapClientProtocol):
         with self._lock:
             self._http_connection.request('GET', url, headers=self._get_headers)
             response = self._http_connection.getresponse()
-            headers = {k.lower(): v for k, v in response.getheaders()}
             _content = response.read()
-            if 'content-encoding' in headers:
-                enc = headers['content-encoding']
+            # repeated header lines are one list (RFC 7230 3.2.2)
+            enc = ', '.join(v for k, v in response.getheaders() if k.lower() == 'content-encoding')
+            if enc:
                 if enc in self.supported_encodings:
                     content = CompressionHandler.decompress_payload(enc, _content)
                 else:
-                    self._log.warn('{}: unsupported compression ', headers['content-encoding'])
+                    self._log.warn('{}: unsupported compression ', enc)
                     raise UnknownTransferEncoding
             else:
                 content = _content
